@@ -235,7 +235,7 @@ func TestVerifC15(t *testing.T) {
 				}
 				rn := rv.(*c15Runner)
 				prog, shape := fam.Build(i)
-				if i%97 == 0 {
+				if true {
 					if msg := c15RoundTrip(prog); msg != "" {
 						rtOnce.Do(func() { c.Violate("harness:printer-round-trip", msg, c15Print(prog)) })
 					}
